@@ -13,7 +13,7 @@ CORE_ASSUME = ["behaviours are pure observers in these runs (empty plan): no sub
 PROPS = {
     "C01": {
         "extra": [("mix", 3, 12)], "profile": "core", "n_quick": 5, "n_thorough": 40, "nops": 16, "nlists": 3, "cfgs": SIX,
-        "corpus": ["fwd_sub_table", "fwd_sub_table_internal", "fwd_sub_irows", "fwd_sub_sirows", "fwd_subsub_table",
+        "corpus": ["nested_defer_not_forwarded", "fwd_sub_table", "fwd_sub_table_internal", "fwd_sub_irows", "fwd_sub_sirows", "fwd_subsub_table",
                    "fwd_subsub_irows", "fwd_subsub_sirows", "fwd_nowhere", "ortho_codes", "defer_codes"],
         "monitor": M.both(M.mon_C01, M.mon_spec),
         "relevant": M.relevant_by(M.proj({"G0", "G1", "A"}, keep_res=True)),
